@@ -137,11 +137,12 @@ def _build(config, profile, tool):
         cmd = ["cargo", "+nightly", "build", "-Zbuild-std", "--target", TARGET_TRIPLE] + cargo_profile_args(profile) + common
         binary = os.path.join(tdir, TARGET_TRIPLE, profile_dir(profile), "probe")
         prefix = [binary]
-    elif tool == "miri":
+    elif tool in ("miri", "miri-i686", "miri-s390x"):
         env["RUSTFLAGS"] = rustflags_for(config, tool)
         env["MIRIFLAGS"] = "-Zmiri-disable-isolation"
-        cmd = ["cargo", "+nightly", "miri", "run"] + cargo_profile_args(profile) + common + ["--", "list"]
-        prefix = ["cargo", "+nightly", "miri", "run", "-q"] + cargo_profile_args(profile) + common + ["--"]
+        tgt = {"miri": [], "miri-i686": ["--target", "i686-unknown-linux-gnu"], "miri-s390x": ["--target", "s390x-unknown-linux-gnu"]}[tool]
+        cmd = ["cargo", "+nightly", "miri", "run"] + tgt + cargo_profile_args(profile) + common + ["--", "list"]
+        prefix = ["cargo", "+nightly", "miri", "run", "-q"] + tgt + cargo_profile_args(profile) + common + ["--"]
         binary = None
     else:
         raise ValueError(tool)
@@ -221,7 +222,7 @@ def run_shard(step, built, tier, seed, shard, outdir):
     env = base_env()
     env.update(built["env_extra"])
     env = tool_env(step.tool, env)
-    if step.tool == "miri":
+    if step.tool.startswith("miri"):
         flags = ["-Zmiri-disable-isolation"]
         if step.miri_flags:
             flags.append(step.miri_flags)
@@ -356,7 +357,7 @@ def run_property(prop, tier, seed, only=None):
     steps = plans.plan(prop, tier)
     if only:
         steps = [s for s in steps if only in s.monitor or only == s.config or only == s.tool or only == s.profile]
-    if not steps:
+    if not steps and not only:
         print("NOT-CLAIMED property=%s (no check registered)" % prop)
         return 2
     run_root = os.path.join(BUILD, "runs", prop + "-" + tier)
@@ -377,7 +378,7 @@ def run_property(prop, tier, seed, only=None):
             build_keys.append(k)
     built = {}
     build_failures = []
-    with concurrent.futures.ThreadPoolExecutor(max_workers=min(8, len(build_keys))) as ex:
+    with concurrent.futures.ThreadPoolExecutor(max_workers=max(1, min(8, len(build_keys)))) as ex:
         futs = {ex.submit(build, *k): k for k in build_keys}
         for fut in concurrent.futures.as_completed(futs):
             k = futs[fut]
@@ -677,6 +678,7 @@ def main():
     if tier not in ("quick", "thorough"):
         tier = "quick"
     seed = a.seed if a.seed is not None else int(os.environ.get("VERIF_SEED", "0") or 0)
+    os.environ["VERIF_SEED"] = str(seed)
     os.makedirs(BUILD, exist_ok=True)
     if a.property == "setup":
         return plans.setup(build)
